@@ -121,6 +121,22 @@ def run_case(args):
                 got = H.multiple_format_hash_file(path, list(fmts))
             elif ep == "hash_data":
                 got = {fmts[0]: H.hash_data(data, fmts[0])}
+            elif ep == "stream":
+                # the streaming interface: data fed in uneven pieces, the digest read after every piece (and before the
+                # first): each reading must be the digest of exactly the bytes fed so far
+                import random as _r
+                rr = _r.Random("%s-%s" % (seed, k))
+                cuts = sorted({0, n} | {rr.randint(0, n) for _ in range(4)} | ({1, n - 1} if n > 2 else set()))
+                hs_ = H.new_hasher_for_hash_type(fmts[0])
+                ok = hs_.string_digest() == oracle.digest(fmts[0], b"")
+                for a_, b_ in zip(cuts, cuts[1:]):
+                    hs_.update(data[a_:b_])
+                    d_ = hs_.string_digest()
+                    if d_ != oracle.digest(fmts[0], data[:b_]):
+                        ok = False
+                        note = "digest after %d of %d bytes is %s" % (b_, n, d_)
+                        break
+                got = {fmts[0]: hs_.string_digest()} if ok else {fmts[0]: "stale:" + note}
             elif ep == "multi_data":
                 got = H.multiple_format_hash_data(data, list(fmts))
             elif ep == "cli_hash":
@@ -165,7 +181,7 @@ def run_case(args):
         return {"tid": "hash-%d" % k, "i": 0, "len": n, "fmts": list(fmts), "ep": ep, "chunk": CHUNK, "events": events, "loop_fmts": [sorted(fmts)[0]] if ep == "verify" else list(fmts), "note": note, "op": {"op": ep}, "exit": 0,
                 "digests_ok": all(got.get(f) == want[f] for f in fmts) and set(got) >= set(fmts),
                 "diff": [[f, got.get(f, ""), want[f]] for f in fmts if got.get(f) != want[f]][:2],
-                "reads_file": ep not in ("hash_data", "multi_data")}
+                "reads_file": ep not in ("hash_data", "multi_data", "stream")}
     finally:
         shutil.rmtree(wd, ignore_errors=True)
 
